@@ -744,8 +744,7 @@ def run(ctx):
         "disagreeing_sub_strata_run_by_default": {k: {"what": v, "smallest_input": "corpus/C27/%s.proto" % k} for k, v in c27gen.DISAGREEING.items()},
         "gated": {k: {"what": v[0], "keys": v[1], "enabled": k in gated, "withheld_file_sets": withheld.get(k, 0),
                       "smallest_input": "corpus/C27/%s.proto" % k} for k, v in c27gen.GATED.items()},
-        "switch": "a gated name is generated when VERIF_C27_FEATURES_GATED=1 (all) or lists it, or as soon as KNOWN_FINDINGS.txt has a "
-                  "known: line for each of its keys"}
+        "switch": "none: every class runs by default; what is explored never depends on what KNOWN_FINDINGS.txt lists"}
     ctx.extra["comparison_checked_in_coq"] = len(terms)
     for c in cases[len(corpus()):len(corpus()) + 3]:
         ctx.sample({"request": c[1], "files": c[0], "generated_as": c[2]})
